@@ -53,17 +53,6 @@ Definition model_digests (g : gen_case) : list N :=
       | None => []
       end ].
 
-(** ** pass B: mutations of (tx, witness scripts) *)
-Inductive mutation :=
-| MVersion (v : N) | MLock (v : N) | MSeq (v : N) | MVout (v : N) | MTxidByte (j : nat) (b : N)
-| MScriptSig (b : bytes) | MWitness (w : list bytes) | MDupIn | MDropIn
-| MValue (k : nat) (v : N) | MSpk (k : nat) (b : bytes) | MSpkByte (k j : nat) (b : N)
-| MWs (k : nat) (b : bytes) | MWsByte (k j : nat) (b : N)
-| MDropOut (k : nat) | MDupOut (k : nat) | MSwapOut (i j : nat) | MSwapWs (i j : nat)
-| MDropWs (k : nat) | MAddWs (b : bytes) | MAddOut (v : N) (spk ws : bytes)
-| MSpkFix (k : nat)               (* script_pubkey k := p2wsh (witness script k) *)
-| MWsTrunc (k : nat) | MWsPush (k : nat) (b : N) | MWsInsert (k j : nat) (b : N).
-
 Fixpoint set_nth {A} (k : nat) (f : A -> A) (l : list A) : list A :=
   match l, k with
   | [], _ => []
@@ -86,6 +75,37 @@ Definition swap_nth {A} (i j : nat) (l : list A) : list A :=
   match nth_error l i, nth_error l j with
   | Some a, Some b => set_nth i (fun _ => b) (set_nth j (fun _ => a) l)
   | _, _ => l
+  end.
+
+(** ** pass B: mutations of (tx, witness scripts) *)
+Inductive mutation :=
+| MVersion (v : N) | MLock (v : N) | MSeq (v : N) | MVout (v : N) | MTxidByte (j : nat) (b : N)
+| MScriptSig (b : bytes) | MWitness (w : list bytes) | MDupIn | MDropIn
+| MValue (k : nat) (v : N) | MSpk (k : nat) (b : bytes) | MSpkByte (k j : nat) (b : N)
+| MWs (k : nat) (b : bytes) | MWsByte (k j : nat) (b : N)
+| MDropOut (k : nat) | MDupOut (k : nat) | MSwapOut (i j : nat) | MSwapWs (i j : nat)
+| MDropWs (k : nat) | MAddWs (b : bytes) | MAddOut (v : N) (spk ws : bytes)
+| MSpkFix (k : nat)               (* script_pubkey k := p2wsh (witness script k) *)
+| MWsTrunc (k : nat) | MWsPush (k : nat) (b : N) | MWsInsert (k j : nat) (b : N)
+(* the semantic arguments of the raw entry point (the transaction stays as it is) *)
+| ANum (n : N) | AFeerate (f : N) | ADropHtlc (offered : bool) (k : nat) | ADupHtlc (offered : bool) (k : nat)
+| ASwapLists | ACltv (offered : bool) (k : nat) (v : N) | AValue (offered : bool) (k : nat) (v : N).
+
+(** commitment number, fee rate, offered and received HTLCs as passed to phase 1 *)
+Definition call_args : Type := N * N * list htlc * list htlc.
+Definition on_htlcs (offered : bool) (f : list htlc -> list htlc) (a : call_args) : call_args :=
+  let '(n, fr, off, rec) := a in if offered then (n, fr, f off, rec) else (n, fr, off, f rec).
+Definition apply_arg (m : mutation) (a : call_args) : call_args :=
+  let '(n, fr, off, rec) := a in
+  match m with
+  | ANum n' => (n', fr, off, rec)
+  | AFeerate f => (n, f, off, rec)
+  | ADropHtlc o k => on_htlcs o (drop_nth k) a
+  | ADupHtlc o k => on_htlcs o (dup_nth k) a
+  | ASwapLists => (n, fr, rec, off)
+  | ACltv o k v => on_htlcs o (set_nth k (fun h => mkHtlc (h_value h) (h_hash h) v)) a
+  | AValue o k v => on_htlcs o (set_nth k (fun h => mkHtlc v (h_hash h) (h_cltv h))) a
+  | _ => a
   end.
 
 Definition on_in0 (f : txin -> txin) (t : tx) : tx :=
@@ -128,6 +148,7 @@ Definition apply_mut (m : mutation) (p : tx * list bytes) : tx * list bytes :=
   | MWsTrunc k => (t, set_nth k (fun w => removelast w) ws)
   | MWsPush k b => (t, set_nth k (fun w => w ++ [b]) ws)
   | MWsInsert k j b => (t, set_nth k (fun w => firstn j w ++ b :: skipn j w) ws)
+  | _ => (t, ws)
   end.
 
 (** observation of [CommitmentInfo] after [decode_commitment_tx] *)
@@ -180,10 +201,12 @@ Definition model_mutant (cc : ccase) (sh rp : bytes -> bytes) (base : tx * list 
   let c := cc_content cc in
   let pk := oracle_parse (cc_oracle cc) in
   let '(t, ws) := fold_left (fun p m => apply_mut m p) ms base in
+  let '(num, fr, off, rec) :=
+    fold_left (fun a m => apply_arg m a) ms (c_num c, c_feerate c, c_offered c, c_received c) in
   let d := if Nat.eqb (length (t_outs t)) (length ws)
            then option_map obs_of_info (decode sh pk s t ws) else None in
   let r := sign_phase1 sh rp pk s k bytes bytes (fun _ d => d) [] (cc_value_ok cc)
-                       (fun _ => acc) t ws (c_num c) (c_feerate c) (c_offered c) (c_received c) in
+                       (fun _ => acc) t ws num fr off rec in
   (d, match r with Ok _ => true | Refused => false end).
 
 Definition check_mutant (cc : ccase) (sh rp : bytes -> bytes) (base : tx * list bytes) (m : mutant)
